@@ -82,8 +82,20 @@ def run(ctx: Ctx) -> None:
     ok = ok and bool(rn) and gck.dominates(has_call("self._send_h11_event"), rn[0])
     ctx.check("C13.R2", wc, "101 connection: upgrade / upgrade: h2c sent before switching", ok, "the h2c switch must be announced with a 101 response first", i101[0] if i101 else ck)
     ga = guard_atoms(r_pri[0])
-    ok = {("event.method == b'PRI'", True), ("event.target == b'*'", True), ("event.http_version == b'2.0'", True)} <= ga
-    ctx.check("C13.R2", wc, "prior knowledge iff PRI * HTTP/2.0", ok, f"prior-knowledge guards: {sorted(ga)}", r_pri[0])
+    from ..astq import guards as _g13
+    from ..pred import eval_expr as _ev13
+
+    bad13 = None
+    for m_, t_, v_, want_ in ((b"PRI", b"*", b"2.0", True), (b"PRI", b"*", b"1.1", False), (b"GET", b"*", b"2.0", False), (b"PRI", b"/", b"2.0", False), (b"OPTIONS", b"*", b"1.1", False)):
+        env13 = {"event.method": m_, "event.target": t_, "event.http_version": v_, "upgrade_value": "", "has_body": False, "upgrade_value.lower()": ""}
+        try:
+            got_ = all(bool(_ev13(tt, env13)) == pp for tt, pp in _g13(r_pri[0]))
+        except Exception as error:
+            got_ = f"not evaluable: {error}"
+        if got_ is not want_:
+            bad13 = (m_, t_, v_, got_)
+            break
+    ctx.check("C13.R2", wc, "prior knowledge iff PRI * HTTP/2.0", bad13 is None, f"request line {bad13[:3] if bad13 else ''}: switches = {bad13[3] if bad13 else ''}; prior-knowledge guards: {sorted(ga)}", r_pri[0])
     e = r_pri[0].exc.args[0] if r_pri[0].exc.args else None
     ok = isinstance(e, ast.BinOp) and isinstance(e.op, ast.Add) and isinstance(e.left, ast.Constant) and norm(e.right) == "self.connection.trailing_data[0]"
     ctx.check("C13.R2", wc, "H2ProtocolAssumedError(<preface line> + trailing_data[0])", bool(ok), f"raised with {norm(e)}", r_pri[0])
